@@ -59,7 +59,9 @@ fn privacy_unit(style: &str) -> PrivacyUnit {
 fn gen_tree(rng: &mut Rng, depth: u32, nt: u64) -> J {
     if depth == 0 || rng.chance(1, 4) { return json!(["table", rng.below(nt)]); }
     match rng.below(8) {
-        0 | 1 => json!(["map", rng.below(2), rng.range(-2, 2), rng.below(2), rng.range(-2, 2), gen_tree(rng, depth - 1, nt)]),
+        // the seventh element (the driver does not read it): the map also projects a column of its own under one of the two names the
+        // rewriting reserves for the privacy unit and its weight — legal SQL, and no business of the tracking
+        0 | 1 => json!(["map", rng.below(2), rng.range(-2, 2), rng.below(2), rng.range(-2, 2), gen_tree(rng, depth - 1, nt), if rng.chance(1, 12) { 1 + rng.below(2) } else { 0 }]),
         2 => json!(["filter", rng.below(2), rng.range(-2, 2), gen_tree(rng, depth - 1, nt)]),
         3 => json!(["join", rng.below(2), rng.below(2), rng.below(2), rng.below(2), gen_tree(rng, depth - 1, nt), gen_tree(rng, depth - 1, nt)]),
         4 => json!(["joinpub", rng.below(2), rng.below(2), rng.chance(1, 2), gen_tree(rng, depth - 1, nt)]),
@@ -73,7 +75,8 @@ fn emit(t: &J, ctes: &mut Vec<String>) -> String {
     let a = t.as_array().unwrap();
     let body = match a[0].as_str().unwrap() {
         "table" => if a[1] == 0 { "SELECT k AS c0, x AS c1 FROM ta".to_string() } else if a[1] == 1 { "SELECT k AS c0, y AS c1 FROM tb".to_string() } else { "SELECT k AS c0, z AS c1 FROM tc".to_string() },
-        "map" => { let i = emit(&a[5], ctes); format!("SELECT c{} + {} AS c0, c{} + {} AS c1 FROM {i}", a[1], a[2], a[3], a[4]) }
+        "map" => { let i = emit(&a[5], ctes); let extra = match a.get(6).and_then(|x| x.as_u64()) { Some(1) => format!(", c{} AS \"_PRIVACY_UNIT_\"", a[1]), Some(2) => format!(", c{} AS \"_PRIVACY_UNIT_WEIGHT_\"", a[3]), _ => String::new() };
+                   format!("SELECT c{} + {} AS c0, c{} + {} AS c1{extra} FROM {i}", a[1], a[2], a[3], a[4]) }
         "filter" => { let i = emit(&a[3], ctes); format!("SELECT c0 AS c0, c1 AS c1 FROM {i} WHERE c{} > {}", a[1], a[2]) }
         "join" => { let l = emit(&a[5], ctes); let r = emit(&a[6], ctes); format!("SELECT l.c{} AS c0, r.c{} AS c1 FROM {l} AS l JOIN {r} AS r ON l.c{} = r.c{}", a[3], a[4], a[1], a[2]) }
         "joinpub" => { let l = emit(&a[4], ctes); format!("SELECT l.c{} AS c0, p.w AS c1 FROM {l} AS l {} pp AS p ON l.c{} = p.k", a[2], if a[3] == true { "LEFT JOIN" } else { "JOIN" }, a[1]) }
